@@ -145,8 +145,23 @@ def r4(R):
     rets = [r for r in ast.walk(fn) if isinstance(r, ast.Return)]
     R.shape(len(rets) == 1, "C02.R4", TR, "uncompute_g_vectors", "the single return")
     names = [n.id for n in ast.walk(rets[0].value) if isinstance(n, ast.Name)]
-    def masked(v):
-        return isinstance(v, ast.BinOp) and isinstance(v.op, ast.Mult) and vname in (src(v.left), src(v.right))
+    def masked(v, depth=4):
+        """True: every angle in v is a product with the validity mask; False: some angle visibly is not; None: cannot tell"""
+        if isinstance(v, ast.BinOp) and isinstance(v.op, ast.Mult) and vname in (src(v.left), src(v.right)):
+            return True
+        if isinstance(v, (ast.List, ast.Tuple)) and v.elts:
+            rs = [masked(e, depth) for e in v.elts]
+            return False if False in rs else (None if None in rs else True)
+        if isinstance(v, (ast.ListComp, ast.GeneratorExp)):
+            return masked(v.elt, depth)
+        if isinstance(v, ast.Name) and depth > 0:
+            ds = [a for a in ast.walk(fn) if isinstance(a, ast.Assign) and any(src(t) == v.id for t in a.targets)]
+            if len(ds) >= 1:
+                return masked(ds[-1].value, depth - 1)
+            return None
+        if isinstance(v, (ast.BinOp, ast.Call, ast.Subscript, ast.Attribute, ast.UnaryOp)):
+            return False
+        return None
     for nme in names:
         defs = [a for a in ast.walk(fn) if isinstance(a, ast.Assign) and any(src(t) == nme for t in a.targets)]
         last = defs[-1] if defs else None
@@ -159,7 +174,9 @@ def r4(R):
                 produced.append((c.args[0], c.lineno))
         R.shape(bool(produced), "C02.R4", TR, "uncompute_g_vectors", "how the returned name '%s' is computed" % nme)
         for v, ln in produced:
-            R.check(masked(v), "C02.R4", TR, ln, "uncompute_g_vectors", "returned %s = ... * %s" % (nme, vname),
+            mk = masked(v)
+            R.shape(mk is not None, "C02.R4", TR, "uncompute_g_vectors", "the expression returned as '%s' (%s)" % (nme, src(v)[:50]))
+            R.check(mk, "C02.R4", TR, ln, "uncompute_g_vectors", "returned %s = ... * %s" % (nme, vname),
                     "an angle is returned without being multiplied by the validity mask: unreachable g-vectors are given angles")
     n = 0
     for rel in pyfacts.library_files(R.root, R.tier):
